@@ -1,8 +1,8 @@
 (* C13 -- invariance under change of the time unit, re-segmentation and operator order.
    Part A (this file, first section): the segment integral.                               *)
-From Coq Require Import ZArith Reals Lra Lia List.
+From Coq Require Import ZArith Reals Lra Lia List Setoid Morphisms Permutation.
 From Coquelicot Require Import Coquelicot.
-From FF Require Import Base.Ops Inst.RInst Base.RAlg Model.Numeric Proofs.Foi.
+From FF Require Import Base.Ops Inst.RInst Base.RAlg Model.Numeric Proofs.Foi Proofs.CMBase Proofs.CMIntegral.
 Import ListNotations.
 Local Open Scope R_scope.
 
@@ -53,4 +53,676 @@ Theorem foi_entry_zero_duration thr w evm evn : foi_entry RO thr w evm evn 0 = (
 Proof.
   unfold foi_entry, cite; simpl. rewrite Rmult_0_r, sin_0, cos_0.
   destruct (Rgtb (Rabs 0) thr); simpl; f_equal; unfold Rdiv; ring.
+Qed.
+
+(* =====================================================================================
+   Arrays: shape and extensionality
+   ===================================================================================== *)
+Definition a3shaped (n1 n2 n3 : nat) (A : Arr3 (T:=R)) : Prop :=
+  A = a3build n1 n2 n3 (fun a k o => a3get RO A a k o).
+Lemma a3build_shaped n1 n2 n3 f : a3shaped n1 n2 n3 (a3build n1 n2 n3 f).
+Proof. unfold a3shaped. apply a3build_ext. intros. rewrite a3get_a3build by auto. reflexivity. Qed.
+Lemma a3_ext n1 n2 n3 A A' : a3shaped n1 n2 n3 A -> a3shaped n1 n2 n3 A' ->
+  (forall a k o, (a < n1)%nat -> (k < n2)%nat -> (o < n3)%nat -> a3get RO A a k o = a3get RO A' a k o) -> A = A'.
+Proof. intros H H' E. rewrite H, H'. apply a3build_ext. exact E. Qed.
+
+Definition a3scal (n1 n2 n3 : nat) (z : R) (A : Arr3 (T:=R)) : Arr3 (T:=R) :=
+  a3build n1 n2 n3 (fun a k o => cscal RO z (a3get RO A a k o)).
+
+Lemma cm_step_shaped d thr ev V Q tg dt om bs ns nc :
+  a3shaped (length ns) (length bs) (length om) (cm_step RO d thr ev V Q tg dt om bs ns nc).
+Proof. unfold cm_step. apply a3build_shaped. Qed.
+Lemma cm_loop_shaped d thr om bs ns : forall evs Vs Qs ts dts ncs acc,
+  a3shaped (length ns) (length bs) (length om) acc ->
+  a3shaped (length ns) (length bs) (length om) (cm_scratch_loop RO d thr evs Vs Qs ts dts om bs ns ncs acc).
+Proof.
+  induction evs as [|ev evs IH]; intros Vs Qs ts dts ncs acc Ha; [exact Ha|].
+  destruct Vs; [exact Ha|]. destruct Qs; [exact Ha|]. destruct ts; [exact Ha|]. destruct dts; [exact Ha|].
+  destruct ncs; [exact Ha|]. simpl. apply IH. apply a3build_shaped.
+Qed.
+Lemma cm_shaped d thr evs Vs Qs om bs ns nc dts ts :
+  a3shaped (length ns) (length bs) (length om) (control_matrix_from_scratch RO d thr evs Vs Qs om bs ns nc dts ts).
+Proof. unfold control_matrix_from_scratch. apply cm_loop_shaped. apply a3build_shaped. Qed.
+
+(* =====================================================================================
+   Change of the time unit: control matrix x lam, filter function x lam^2
+   ===================================================================================== *)
+Section TimeUnit.
+Variable d : nat.
+Variable lam : R.
+Hypothesis lam_pos : 0 < lam.
+
+Definition sdiv (v : list R) : list R := map (fun x => x / lam) v.
+Definition smul (v : list R) : list R := map (fun x => lam * x) v.
+
+Lemma length_sdiv v : length (sdiv v) = length v.
+Proof. apply map_length. Qed.
+Lemma length_smul v : length (smul v) = length v.
+Proof. apply map_length. Qed.
+Lemma vg_sdiv v i : vg RO (sdiv v) i = vg RO v i / lam.
+Proof.
+  unfold vg, vget, sdiv. simpl.
+  replace 0 with (0 / lam) at 1 by (unfold Rdiv; ring). apply (map_nth (fun x => x / lam)).
+Qed.
+
+Lemma time_scaling_step_entry thr ev V Q tg dt w s N Cm :
+  step_entry d (foi_entry RO thr) (sdiv ev) V Q (lam * tg) (lam * dt) (w / lam) s N Cm =
+  cscal RO lam (step_entry d (foi_entry RO thr) ev V Q tg dt w s N Cm).
+Proof.
+  unfold step_entry.
+  replace (w / lam * (lam * tg)) with (w * tg) by (field; lra).
+  rewrite (csumn_ext d _ (fun m => cscal RO lam (csumn' d (fun n =>
+     cmul' (cmul' (mget RO (transform_by_unitary RO d V N) m n) (foi_entry RO thr w (vg RO ev m) (vg RO ev n) dt))
+           (mget RO (transform_by_unitary RO d (mmul RO d (madj RO d Q) V) Cm) n m))))).
+  - rewrite !cscal_cmul. rewrite (csumn_ext d _ _ (fun m _ => cscal_cmul lam _)).
+    rewrite csumn_mul_l. ring.
+  - intros m _. rewrite cscal_cmul, <- csumn_mul_l. apply csumn_ext. intros n _.
+    rewrite !vg_sdiv, time_scaling_foi by auto. rewrite cscal_cmul. ring.
+Qed.
+
+Theorem time_scaling_cm_step thr ev V Q tg dt om bs ns nc :
+  cm_step RO d thr (sdiv ev) V Q (lam * tg) (lam * dt) (sdiv om) bs ns nc =
+  a3scal (length ns) (length bs) (length om) lam (cm_step RO d thr ev V Q tg dt om bs ns nc).
+Proof.
+  apply (a3_ext (length ns) (length bs) (length om)).
+  - pose proof (cm_step_shaped d thr (sdiv ev) V Q (lam * tg) (lam * dt) (sdiv om) bs ns nc) as H.
+    rewrite length_sdiv in H. exact H.
+  - apply a3build_shaped.
+  - intros j k o Hj Hk Ho. unfold a3scal. rewrite a3get_a3build by auto.
+    rewrite !cm_step_entry by (auto; rewrite length_sdiv; auto).
+    rewrite vg_sdiv. apply time_scaling_step_entry.
+Qed.
+
+(* the propagators do not change *)
+Lemma time_scaling_segment_propagator ev V dt :
+  segment_propagator RO d (sdiv ev) V (lam * dt) = segment_propagator RO d ev V dt.
+Proof.
+  unfold segment_propagator. apply mbuild_ext. intros i k _ _. apply csumn_ext. intros j _.
+  rewrite vg_sdiv. simpl. replace (lam * dt * (vg RO ev j / lam)) with (dt * vg RO ev j) by (field; lra). reflexivity.
+Qed.
+Lemma time_scaling_cumulative : forall evs Vs dts Q,
+  cumulative RO d (map sdiv evs) Vs (smul dts) Q = cumulative RO d evs Vs dts Q.
+Proof.
+  induction evs as [|ev evs IH]; intros Vs dts Q; [reflexivity|].
+  destruct Vs as [|V Vs]; [reflexivity|]. destruct dts as [|dt dts]; [reflexivity|].
+  simpl. rewrite time_scaling_segment_propagator, IH. reflexivity.
+Qed.
+Theorem time_scaling_propagators evs Vs dts :
+  propagators RO d (map sdiv evs) Vs (smul dts) = propagators RO d evs Vs dts.
+Proof. apply time_scaling_cumulative. Qed.
+Lemma time_scaling_cumsum : forall dts a, cumsum_from RO (lam * a) (smul dts) = smul (cumsum_from RO a dts).
+Proof.
+  induction dts as [|x r IH]; intros a; simpl. reflexivity.
+  rewrite <- IH. do 2 f_equal. ring.
+Qed.
+Theorem time_scaling_times dts : times RO (smul dts) = smul (times RO dts).
+Proof. unfold times. simpl. rewrite <- time_scaling_cumsum. do 2 f_equal. ring. Qed.
+
+Lemma time_scaling_loop thr om bs ns : forall evs Vs Qs ts dts ncs acc acc',
+  acc' = a3scal (length ns) (length bs) (length om) lam acc ->
+  cm_scratch_loop RO d thr (map sdiv evs) Vs Qs (smul ts) (smul dts) (sdiv om) bs ns ncs acc' =
+  a3scal (length ns) (length bs) (length om) lam (cm_scratch_loop RO d thr evs Vs Qs ts dts om bs ns ncs acc).
+Proof.
+  induction evs as [|ev evs IH]; intros Vs Qs ts dts ncs acc acc' Ha; [exact Ha|].
+  destruct Vs; [exact Ha|]. destruct Qs; [exact Ha|]. destruct ts; [exact Ha|]. destruct dts; [exact Ha|].
+  destruct ncs; [exact Ha|]. simpl. apply IH.
+  rewrite time_scaling_cm_step. rewrite length_sdiv. subst acc'.
+  apply a3build_ext. intros a k o Ha Hk Ho. unfold a3scal.
+  rewrite !a3get_a3build by auto. rewrite a3get_a3add by auto. apply c_eq; csimp; ring.
+Qed.
+
+(* general form: any propagators / times handed to the function *)
+Theorem time_scaling_cm_general thr evs Vs Qs om bs ns nc dts ts :
+  control_matrix_from_scratch RO d thr (map sdiv evs) Vs Qs (sdiv om) bs ns nc (smul dts) (smul ts) =
+  a3scal (length ns) (length bs) (length om) lam (control_matrix_from_scratch RO d thr evs Vs Qs om bs ns nc dts ts).
+Proof.
+  unfold control_matrix_from_scratch. rewrite length_smul, length_sdiv.
+  apply time_scaling_loop. apply a3build_ext. intros. unfold a3scal. rewrite a3get_a3zero by auto.
+  apply c_eq; csimp; ring.
+Qed.
+
+(* the package's call: propagators and time grid derived from the (scaled) pulse *)
+Theorem time_scaling_cm thr evs Vs om bs ns nc dts :
+  control_matrix_from_scratch RO d thr (map sdiv evs) Vs (propagators RO d (map sdiv evs) Vs (smul dts))
+     (sdiv om) bs ns nc (smul dts) (times RO (smul dts)) =
+  a3scal (length ns) (length bs) (length om) lam
+    (control_matrix_from_scratch RO d thr evs Vs (propagators RO d evs Vs dts) om bs ns nc dts (times RO dts)).
+Proof. rewrite time_scaling_propagators, time_scaling_times. apply time_scaling_cm_general. Qed.
+
+(* hence the filter function scales by lam^2 *)
+Theorem time_scaling_ff na nk no Bm :
+  filter_function RO na nk no (a3scal na nk no lam Bm) = a3scal na na no (lam * lam) (filter_function RO na nk no Bm).
+Proof.
+  unfold filter_function at 1. unfold a3scal at 2. apply a3build_ext. intros a b o Ha Hb Ho.
+  rewrite ff_entry by auto. rewrite !cscal_cmul, <- csumn_mul_l. apply csumn_ext. intros k Hk.
+  unfold a3scal. rewrite !a3get_a3build by auto. apply c_eq; csimp; ring.
+Qed.
+End TimeUnit.
+
+(* =====================================================================================
+   Re-segmentation: zero-duration segments, splitting / merging
+   ===================================================================================== *)
+Section Reseg.
+Variable d : nat.
+
+(* ---- the control matrix sees the propagator Q only through its d x d entries ---- *)
+Lemma mmul_feq_r A Q Q' : feq d (toF Q) (toF Q') -> mmul RO d A Q = mmul RO d A Q'.
+Proof.
+  intros H. unfold mmul. apply mbuild_ext. intros i j Hi Hj. apply csumn_ext. intros k Hk.
+  f_equal. apply (H k j); auto.
+Qed.
+Lemma madj_mmul_feq Q Q' V : feq d (toF Q) (toF Q') -> mmul RO d (madj RO d Q) V = mmul RO d (madj RO d Q') V.
+Proof.
+  intros H. unfold mmul. apply mbuild_ext. intros i j Hi Hj. apply csumn_ext. intros k Hk.
+  f_equal. unfold madj. rewrite !mget_mbuild by auto. f_equal. apply (H k i); auto.
+Qed.
+Lemma step_entry_feq I ev V Q Q' tg dt w s N Cm : feq d (toF Q) (toF Q') ->
+  step_entry d I ev V Q tg dt w s N Cm = step_entry d I ev V Q' tg dt w s N Cm.
+Proof. intros H. unfold step_entry. rewrite (madj_mmul_feq Q Q' V H). reflexivity. Qed.
+Lemma entry_segs_feq I w N Cm segs Q Q' t : feq d (toF Q) (toF Q') ->
+  entry_segs d I segs Q t w N Cm = entry_segs d I segs Q' t w N Cm.
+Proof.
+  intros H. destruct segs as [|[[[ev V] dt] s] r]; [reflexivity|]. simpl.
+  rewrite (step_entry_feq I ev V Q Q') by auto. rewrite (mmul_feq_r _ Q Q' H). reflexivity.
+Qed.
+Lemma step_weight_feq V Q Q' N Cm : feq d (toF Q) (toF Q') -> step_weight d V Q N Cm = step_weight d V Q' N Cm.
+Proof. intros H. unfold step_weight. rewrite (madj_mmul_feq Q Q' V H). reflexivity. Qed.
+
+(* ---- zero-duration segments ---- *)
+Lemma step_entry_zero_duration thr ev V Q tg w s N Cm :
+  step_entry d (foi_entry RO thr) ev V Q tg 0 w s N Cm = 0c.
+Proof.
+  unfold step_entry.
+  rewrite (csumn_ext d _ (fun _ => 0c)).
+  - rewrite csumn_0. apply c_eq; csimp; ring.
+  - intros m _. rewrite (csumn_ext d _ (fun _ => 0c)). apply csumn_0.
+    intros n _. rewrite foi_entry_zero_duration. apply c_eq; csimp; ring.
+Qed.
+
+(* a segment of duration zero contributes the zero array, whatever its amplitudes and eigen-data *)
+Theorem zero_duration_cm_step thr ev V Q tg om bs ns nc :
+  cm_step RO d thr ev V Q tg 0 om bs ns nc = a3zero RO (length ns) (length bs) (length om).
+Proof.
+  apply (a3_ext (length ns) (length bs) (length om)).
+  - apply cm_step_shaped.
+  - apply a3build_shaped.
+  - intros j k o Hj Hk Ho. rewrite cm_step_entry, a3get_a3zero by auto. apply step_entry_zero_duration.
+Qed.
+
+(* inserting a zero-duration segment anywhere does not change any later contribution *)
+Lemma zero_duration_insert_segs thr w N Cm l1 l2 ev V s Q t :
+  feq d (fmul d (toF V) (fadj (toF V))) fid ->
+  entry_segs d (foi_entry RO thr) (l1 ++ (ev, V, 0, s) :: l2) Q t w N Cm =
+  entry_segs d (foi_entry RO thr) (l1 ++ l2) Q t w N Cm.
+Proof.
+  intros HV. rewrite !entry_segs_app. f_equal. simpl.
+  rewrite step_entry_zero_duration, Rplus_0_r, cadd_0_l.
+  apply entry_segs_feq. rewrite toF_mmul, segment_propagator_zero by auto. apply fmul_id_l.
+Qed.
+
+(* ---- splitting a segment ---- *)
+Lemma foi_true_split x a b :
+  foi_true x (a + b) = cadd' (foi_true x a) (cmul' (cexp' (x * a)) (foi_true x b)).
+Proof.
+  unfold foi_true. destruct (Req_EM_T x 0) as [->|Hx].
+  - rewrite Rmult_0_l, cexp_0. apply c_eq; csimp; ring.
+  - apply c_eq; csimp; rewrite Rmult_plus_distr_l.
+    + rewrite sin_plus. field; auto.
+    + rewrite cos_plus. field; auto.
+Qed.
+
+Lemma fmul_cancel_l A B X : feq d (fmul d A B) fid -> feq d (fmul d A (fmul d B X)) X.
+Proof. intros H. rewrite fmul_assoc, H. apply fmul_id_l. Qed.
+
+(* the transformed basis element after a sub-segment of length a: entries acquire the phases u_n conj(u_m) *)
+Lemma BT_after_subsegment ev V Q Cm a :
+  feq d (fmul d (fadj (toF V)) (toF V)) fid ->
+  feq d (toF (transform_by_unitary RO d (mmul RO d (madj RO d (mmul RO d (segment_propagator RO d ev V a) Q)) V) Cm))
+        (fmul d (fdiag (seg_phase ev a))
+                (fmul d (toF (transform_by_unitary RO d (mmul RO d (madj RO d Q) V) Cm))
+                        (fadj (fdiag (seg_phase ev a))))).
+Proof.
+  intros HV.
+  rewrite !toF_transform_by_unitary. rewrite !toF_mmul, !toF_madj, !toF_mmul, toF_segment_propagator.
+  rewrite !fadj_mul, !fadj_invol_feq. rewrite <- !fmul_assoc.
+  rewrite !(fmul_cancel_l _ _ _ HV). rewrite ?HV, ?fmul_id_r. reflexivity.
+Qed.
+
+Lemma BT_after_subsegment_entry ev V Q Cm a n m : (n < d)%nat -> (m < d)%nat ->
+  feq d (fmul d (fadj (toF V)) (toF V)) fid ->
+  mget RO (transform_by_unitary RO d (mmul RO d (madj RO d (mmul RO d (segment_propagator RO d ev V a) Q)) V) Cm) n m =
+  cmul' (seg_phase ev a n) (cmul' (mget RO (transform_by_unitary RO d (mmul RO d (madj RO d Q) V) Cm) n m)
+                                  (cconj' (seg_phase ev a m))).
+Proof.
+  intros Hn Hm HV.
+  change (mget RO ?A n m) with (toF A n m).
+  rewrite (BT_after_subsegment ev V Q Cm a HV n m Hn Hm).
+  rewrite fmul_fdiag_l by auto. f_equal.
+  assert (E : feq d (fmul d (toF (transform_by_unitary RO d (mmul RO d (madj RO d Q) V) Cm)) (fadj (fdiag (seg_phase ev a))))
+                    (fmul d (toF (transform_by_unitary RO d (mmul RO d (madj RO d Q) V) Cm)) (fdiag (fun i => cconj' (seg_phase ev a i))))).
+  { rewrite fadj_fdiag. reflexivity. }
+  rewrite (E n m Hn Hm). rewrite fmul_fdiag_r by auto. reflexivity.
+Qed.
+
+Lemma double_sum_split (f1 f2 f3 : nat -> nat -> Cx) (E Ea : Cx) (s : R) :
+  (forall m n, (m < d)%nat -> (n < d)%nat -> f3 m n = cadd' (f1 m n) (cmul' Ea (f2 m n))) ->
+  cmul' E (cscal RO s (csumn' d (fun m => csumn' d (fun n => f3 m n)))) =
+  cadd' (cmul' E (cscal RO s (csumn' d (fun m => csumn' d (fun n => f1 m n)))))
+        (cmul' (cmul' E Ea) (cscal RO s (csumn' d (fun m => csumn' d (fun n => f2 m n))))).
+Proof.
+  intros H.
+  rewrite (csumn_ext d (fun m => csumn' d (fun n => f3 m n))
+                       (fun m => cadd' (csumn' d (fun n => f1 m n)) (cmul' Ea (csumn' d (fun n => f2 m n))))).
+  - rewrite csumn_add, csumn_mul_l. rewrite !cscal_cmul. ring.
+  - intros m Hm. rewrite <- csumn_mul_l, <- csumn_add. apply csumn_ext. intros n Hn. auto.
+Qed.
+
+(* exact-integral steps: splitting [tg, tg+a+b] at tg+a is exact (V^dagger V = 1) *)
+Theorem step_true_split ev V Q tg a b w s N Cm :
+  feq d (fmul d (fadj (toF V)) (toF V)) fid ->
+  step_entry d foi_I_true ev V Q tg (a + b) w s N Cm =
+  cadd' (step_entry d foi_I_true ev V Q tg a w s N Cm)
+        (step_entry d foi_I_true ev V (mmul RO d (segment_propagator RO d ev V a) Q) (tg + a) b w s N Cm).
+Proof.
+  intros HV. unfold step_entry.
+  replace (w * (tg + a)) with (w * tg + w * a) by ring. rewrite cexp_add.
+  apply (double_sum_split
+    (fun m n => cmul' (cmul' (mget RO (transform_by_unitary RO d V N) m n) (foi_I_true w (vg RO ev m) (vg RO ev n) a))
+                      (mget RO (transform_by_unitary RO d (mmul RO d (madj RO d Q) V) Cm) n m))
+    (fun m n => cmul' (cmul' (mget RO (transform_by_unitary RO d V N) m n) (foi_I_true w (vg RO ev m) (vg RO ev n) b))
+                      (mget RO (transform_by_unitary RO d (mmul RO d (madj RO d (mmul RO d (segment_propagator RO d ev V a) Q)) V) Cm) n m))).
+  intros m n Hm Hn. rewrite BT_after_subsegment_entry by auto.
+  unfold foi_I_true. rewrite foi_true_split.
+  unfold foi_x at 2. replace ((w + (vg RO ev m - vg RO ev n)) * a) with (w * a + (vg RO ev m - vg RO ev n) * a) by ring.
+  rewrite cexp_add, <- seg_phase_conj_mul. ring.
+Qed.
+
+(* the model's steps: exact when no entry of the three segment integrals is on the Taylor branch *)
+Theorem split_segment_exact thr ev V Q tg a b w s N Cm : 0 <= thr ->
+  feq d (fmul d (fadj (toF V)) (toF V)) fid ->
+  all_masked d thr w ev (a + b) -> all_masked d thr w ev a -> all_masked d thr w ev b ->
+  step_entry d (foi_entry RO thr) ev V Q tg (a + b) w s N Cm =
+  cadd' (step_entry d (foi_entry RO thr) ev V Q tg a w s N Cm)
+        (step_entry d (foi_entry RO thr) ev V (mmul RO d (segment_propagator RO d ev V a) Q) (tg + a) b w s N Cm).
+Proof.
+  intros H0 HV M1 M2 M3. rewrite !step_entry_masked_true by auto. apply step_true_split; auto.
+Qed.
+
+Lemma Cmod_csub_le (a b : Cx) : Cmod' (csub' a b) <= Cmod' a + Cmod' b.
+Proof.
+  replace (csub' a b) with (cadd' a (cneg' b)) by ring. eapply Rle_trans. apply Cmod_cadd_le.
+  apply Rplus_le_compat_l. change (cneg' b) with (Copp b). rewrite Cmod_opp. lra.
+Qed.
+
+Lemma step_weight_after_subsegment ev V Q N Cm a : feq d (fmul d (fadj (toF V)) (toF V)) fid ->
+  step_weight d V (mmul RO d (segment_propagator RO d ev V a) Q) N Cm = step_weight d V Q N Cm.
+Proof.
+  intros HV. unfold step_weight. apply sumn_ext; intros m Hm. apply sumn_ext; intros n Hn.
+  rewrite BT_after_subsegment_entry by auto. rewrite !Cmod_cmul.
+  unfold seg_phase. rewrite <- cexp_neg, !Cmod_cexp. ring.
+Qed.
+
+(* ... and within the Taylor bound otherwise *)
+Theorem split_segment_bound thr ev V Q tg a b w s N Cm : 0 <= thr ->
+  feq d (fmul d (fadj (toF V)) (toF V)) fid ->
+  Cmod' (csub' (step_entry d (foi_entry RO thr) ev V Q tg (a + b) w s N Cm)
+               (cadd' (step_entry d (foi_entry RO thr) ev V Q tg a w s N Cm)
+                      (step_entry d (foi_entry RO thr) ev V (mmul RO d (segment_propagator RO d ev V a) Q) (tg + a) b w s N Cm)))
+  <= Rabs s * taylor_eps thr * (Rabs (a + b) + Rabs a + Rabs b) * step_weight d V Q N Cm.
+Proof.
+  intros H0 HV.
+  pose proof (step_entry_true_bound d thr ev V Q tg (a + b) w s N Cm H0) as B0.
+  pose proof (step_entry_true_bound d thr ev V Q tg a w s N Cm H0) as B1.
+  pose proof (step_entry_true_bound d thr ev V (mmul RO d (segment_propagator RO d ev V a) Q) (tg + a) b w s N Cm H0) as B2.
+  rewrite step_weight_after_subsegment in B2 by auto.
+  rewrite (step_true_split ev V Q tg a b w s N Cm HV) in B0.
+  set (X := step_entry d (foi_entry RO thr) ev V Q tg (a + b) w s N Cm) in *.
+  set (X1 := step_entry d (foi_entry RO thr) ev V Q tg a w s N Cm) in *.
+  set (X2 := step_entry d (foi_entry RO thr) ev V (mmul RO d (segment_propagator RO d ev V a) Q) (tg + a) b w s N Cm) in *.
+  set (T1 := step_entry d foi_I_true ev V Q tg a w s N Cm) in *.
+  set (T2 := step_entry d foi_I_true ev V (mmul RO d (segment_propagator RO d ev V a) Q) (tg + a) b w s N Cm) in *.
+  replace (csub' X (cadd' X1 X2)) with (csub' (csub' X (cadd' T1 T2)) (cadd' (csub' X1 T1) (csub' X2 T2))) by ring.
+  eapply Rle_trans. apply Cmod_csub_le.
+  eapply Rle_trans. apply Rplus_le_compat_l. apply Cmod_cadd_le.
+  set (W := step_weight d V Q N Cm) in *. lra.
+Qed.
+
+(* whole pulse: the segment (ev, V, a+b, s) replaced by (ev, V, a, s), (ev, V, b, s); everything after it is unchanged *)
+Lemma split_segment_segs_diff I w N Cm l1 l2 ev V a b s Q t :
+  feq d (fmul d (fadj (toF V)) (toF V)) fid ->
+  let Qg := fold_left (fun Q sg => seg_next_Q d sg Q) l1 Q in
+  let tg := fold_left (fun t sg => t + seg_dt sg) l1 t in
+  csub' (entry_segs d I (l1 ++ (ev, V, a + b, s) :: l2) Q t w N Cm)
+        (entry_segs d I (l1 ++ (ev, V, a, s) :: (ev, V, b, s) :: l2) Q t w N Cm) =
+  csub' (step_entry d I ev V Qg tg (a + b) w s N Cm)
+        (cadd' (step_entry d I ev V Qg tg a w s N Cm)
+               (step_entry d I ev V (mmul RO d (segment_propagator RO d ev V a) Qg) (tg + a) b w s N Cm)).
+Proof.
+  intros HV Qg tg. rewrite !entry_segs_app. fold Qg tg. simpl.
+  rewrite (entry_segs_feq I w N Cm l2
+             (mmul RO d (segment_propagator RO d ev V b) (mmul RO d (segment_propagator RO d ev V a) Qg))
+             (mmul RO d (segment_propagator RO d ev V (a + b)) Qg)).
+  - rewrite Rplus_assoc. ring.
+  - rewrite !toF_mmul. rewrite fmul_assoc, segment_propagator_add by auto. reflexivity.
+Qed.
+End Reseg.
+
+(* =====================================================================================
+   Linearity in the noise operators and in the sensitivities; operator order
+   ===================================================================================== *)
+Section Linear.
+Variable d : nat.
+
+Lemma tbu_linear V (al be : Cx) N1 N2 m n : (m < d)%nat -> (n < d)%nat ->
+  mget RO (transform_by_unitary RO d V (madd RO d (mscal RO d al N1) (mscal RO d be N2))) m n =
+  cadd' (cmul' al (mget RO (transform_by_unitary RO d V N1) m n))
+        (cmul' be (mget RO (transform_by_unitary RO d V N2) m n)).
+Proof.
+  intros Hm Hn. unfold transform_by_unitary, mmul. rewrite !mget_mbuild by auto.
+  rewrite <- !csumn_mul_l, <- csumn_add. apply csumn_ext. intros k Hk.
+  rewrite !mget_mbuild by auto.
+  rewrite (csumn_ext d _ (fun l => cadd' (cmul' al (cmul' (mget RO N1 k l) (mget RO V l n)))
+                                         (cmul' be (cmul' (mget RO N2 k l) (mget RO V l n))))).
+  - rewrite csumn_add, !csumn_mul_l. ring.
+  - intros l Hl. unfold madd, mscal. rewrite !mget_mbuild by auto. ring.
+Qed.
+
+(* one step, linear in the noise operator ... *)
+Lemma step_entry_linear_N I ev V Q tg dt w s (al be : Cx) N1 N2 Cm :
+  step_entry d I ev V Q tg dt w s (madd RO d (mscal RO d al N1) (mscal RO d be N2)) Cm =
+  cadd' (cmul' al (step_entry d I ev V Q tg dt w s N1 Cm)) (cmul' be (step_entry d I ev V Q tg dt w s N2 Cm)).
+Proof.
+  unfold step_entry.
+  rewrite (csumn_ext d _ (fun m => cadd'
+     (cmul' al (csumn' d (fun n => cmul' (cmul' (mget RO (transform_by_unitary RO d V N1) m n) (I w (vg RO ev m) (vg RO ev n) dt))
+                                         (mget RO (transform_by_unitary RO d (mmul RO d (madj RO d Q) V) Cm) n m))))
+     (cmul' be (csumn' d (fun n => cmul' (cmul' (mget RO (transform_by_unitary RO d V N2) m n) (I w (vg RO ev m) (vg RO ev n) dt))
+                                         (mget RO (transform_by_unitary RO d (mmul RO d (madj RO d Q) V) Cm) n m)))))).
+  - rewrite csumn_add, !csumn_mul_l. rewrite !cscal_cmul. ring.
+  - intros m Hm. rewrite <- !csumn_mul_l, <- csumn_add. apply csumn_ext. intros n Hn.
+    rewrite tbu_linear by auto. ring.
+Qed.
+(* ... and in the sensitivity *)
+Lemma step_entry_linear_s I ev V Q tg dt w (a b s1 s2 : R) N Cm :
+  step_entry d I ev V Q tg dt w (a * s1 + b * s2) N Cm =
+  cadd' (cscal RO a (step_entry d I ev V Q tg dt w s1 N Cm)) (cscal RO b (step_entry d I ev V Q tg dt w s2 N Cm)).
+Proof. unfold step_entry. rewrite !cscal_cmul. apply c_eq; csimp; ring. Qed.
+
+(* whole pulse; the segment lists differ only in the sensitivities *)
+Definition seg_sens (sg : seg) : R := let '(_, _, _, s) := sg in s.
+Definition seg_with_sens (sg : seg) (s : R) : seg := let '(ev, V, dt, _) := sg in (ev, V, dt, s).
+
+Lemma entry_segs_linear_N I w (al be : Cx) N1 N2 Cm : forall segs Q t,
+  entry_segs d I segs Q t w (madd RO d (mscal RO d al N1) (mscal RO d be N2)) Cm =
+  cadd' (cmul' al (entry_segs d I segs Q t w N1 Cm)) (cmul' be (entry_segs d I segs Q t w N2 Cm)).
+Proof.
+  induction segs as [|[[[ev V] dt] s] r IH]; intros Q t; simpl. ring.
+  rewrite IH, step_entry_linear_N. ring.
+Qed.
+Lemma entry_segs_linear_s {A} I w (a b : R) N Cm (g : A -> seg) (s1 s2 : A -> R) : forall (l : list A) Q t,
+  entry_segs d I (map (fun x => seg_with_sens (g x) (a * s1 x + b * s2 x)) l) Q t w N Cm =
+  cadd' (cscal RO a (entry_segs d I (map (fun x => seg_with_sens (g x) (s1 x)) l) Q t w N Cm))
+        (cscal RO b (entry_segs d I (map (fun x => seg_with_sens (g x) (s2 x)) l) Q t w N Cm)).
+Proof.
+  induction l as [|x r IH]; intros Q t; simpl. apply c_eq; csimp; ring.
+  destruct (g x) as [[[ev V] dt] s]. simpl.
+  rewrite IH, step_entry_linear_s. apply c_eq; csimp; ring.
+Qed.
+End Linear.
+
+(* =====================================================================================
+   Statements on the package's functions: pulses as lists of segments
+   ===================================================================================== *)
+From FF Require Import Model.Hamiltonian.
+
+Section OnModel.
+Variable d : nat.
+
+(* a segment with the sensitivities of ALL noise operators: eigenvalues, eigenvectors, duration, s_j (j = 0..) *)
+Definition fseg : Type := (list R * MatR * R * list R)%type.
+Definition fs_ev (p : fseg) : list R := let '(ev, _, _, _) := p in ev.
+Definition fs_V (p : fseg) : MatR := let '(_, V, _, _) := p in V.
+Definition fs_dt (p : fseg) : R := let '(_, _, dt, _) := p in dt.
+Definition fs_nc (p : fseg) : list R := let '(_, _, _, nc) := p in nc.
+Definition fs_seg (j : nat) (p : fseg) : seg := (fs_ev p, fs_V p, fs_dt p, vg RO (fs_nc p) j).
+
+(* the package's loop on a pulse given segment by segment (propagators and time grid derived from it) *)
+Definition cm_pulse (thr : R) (P : list fseg) (om : list R) (bs ns : list MatR) : Arr3 (T:=R) :=
+  let evs := map fs_ev P in let Vs := map fs_V P in let dts := map fs_dt P in
+  cm_scratch_loop RO d thr evs Vs (propagators RO d evs Vs dts) (times RO dts) dts om bs ns (map fs_nc P)
+                  (a3zero RO (length ns) (length bs) (length om)).
+
+Lemma zip4_map {A} (f1 : A -> list R) (f2 : A -> MatR) (f3 f4 : A -> R) (l : list A) :
+  zip4 (map f1 l) (map f2 l) (map f3 l) (map f4 l) = map (fun x => (f1 x, f2 x, f3 x, f4 x)) l.
+Proof. induction l; simpl; [reflexivity | rewrite IHl; reflexivity]. Qed.
+
+Lemma cm_pulse_shaped thr P om bs ns : a3shaped (length ns) (length bs) (length om) (cm_pulse thr P om bs ns).
+Proof. unfold cm_pulse. apply cm_loop_shaped. apply a3build_shaped. Qed.
+
+Lemma cm_pulse_entry thr P om bs ns j k o : (j < length ns)%nat -> (k < length bs)%nat -> (o < length om)%nat ->
+  a3get RO (cm_pulse thr P om bs ns) j k o =
+  entry_segs d (foi_entry RO thr) (map (fs_seg j) P) (mid RO d) 0 (vg RO om o) (nthm ns j) (nthm bs k).
+Proof.
+  intros Hj Hk Ho. unfold cm_pulse. rewrite cm_loop_entry, a3get_a3zero by auto.
+  unfold propagators, times. rewrite entry_loop_segs. rewrite map_map.
+  rewrite (zip4_map fs_ev fs_V fs_dt (fun x => vg RO (fs_nc x) j) P). apply cadd_0_l.
+Qed.
+
+(* cm_pulse IS control_matrix_from_scratch called as the package calls it *)
+Fixpoint zipf (evs : list (list R)) (Vs : list MatR) (dts : list R) (ncs : list (list R)) : list fseg :=
+  match evs, Vs, dts, ncs with
+  | ev :: evs', V :: Vs', dt :: dts', nc :: ncs' => (ev, V, dt, nc) :: zipf evs' Vs' dts' ncs'
+  | _, _, _, _ => []
+  end.
+Lemma zipf_unzip : forall evs Vs dts ncs, length evs = length dts -> length Vs = length dts -> length ncs = length dts ->
+  map fs_ev (zipf evs Vs dts ncs) = evs /\ map fs_V (zipf evs Vs dts ncs) = Vs /\
+  map fs_dt (zipf evs Vs dts ncs) = dts /\ map fs_nc (zipf evs Vs dts ncs) = ncs.
+Proof.
+  induction evs as [|ev evs IH]; intros Vs dts ncs H1 H2 H3.
+  - destruct dts; [|discriminate]. destruct Vs; [|discriminate]. destruct ncs; [|discriminate]. simpl; auto.
+  - destruct dts as [|dt dts]; [discriminate|]. destruct Vs as [|V Vs]; [discriminate|]. destruct ncs as [|nc ncs]; [discriminate|].
+    simpl in *. destruct (IH Vs dts ncs) as [E1 [E2 [E3 E4]]]; try lia. rewrite E1, E2, E3, E4. auto.
+Qed.
+Theorem cm_pulse_is_model thr evs Vs dts om bs ns nc : length evs = length dts -> length Vs = length dts ->
+  control_matrix_from_scratch RO d thr evs Vs (propagators RO d evs Vs dts) om bs ns nc dts (times RO dts) =
+  cm_pulse thr (zipf evs Vs dts (transpose_coeffs RO (length dts) nc)) om bs ns.
+Proof.
+  intros H1 H2. unfold cm_pulse, control_matrix_from_scratch.
+  destruct (zipf_unzip evs Vs dts (transpose_coeffs RO (length dts) nc)) as [E1 [E2 [E3 E4]]]; auto.
+  { unfold transpose_coeffs. apply build_length. }
+  rewrite E1, E2, E3, E4. reflexivity.
+Qed.
+
+(* ---- zero-duration segments, anywhere, arbitrary amplitudes (eigen-data) and sensitivities ---- *)
+Theorem zero_duration_insert_cm thr P1 P2 ev V ncg om bs ns :
+  feq d (fmul d (toF V) (fadj (toF V))) fid ->
+  cm_pulse thr (P1 ++ (ev, V, 0, ncg) :: P2) om bs ns = cm_pulse thr (P1 ++ P2) om bs ns.
+Proof.
+  intros HV. apply (a3_ext (length ns) (length bs) (length om)); try apply cm_pulse_shaped.
+  intros j k o Hj Hk Ho. rewrite !cm_pulse_entry by auto. rewrite !map_app. cbn [map].
+  change (fs_seg j (ev, V, 0, ncg)) with ((ev, V, 0, vg RO ncg j) : seg). apply zero_duration_insert_segs. exact HV.
+Qed.
+
+(* ---- splitting (read right to left: merging equal neighbours) ---- *)
+Definition prop_before (P1 : list fseg) : MatR :=
+  fold_left (fun Q sg => seg_next_Q d sg Q) (map (fs_seg 0) P1) (mid RO d).
+
+Lemma fold_next_Q_indep j : forall P1 Q,
+  fold_left (fun Q sg => seg_next_Q d sg Q) (map (fs_seg j) P1) Q =
+  fold_left (fun Q sg => seg_next_Q d sg Q) (map (fs_seg 0) P1) Q.
+Proof. induction P1 as [|[[[ev V] dt] nc] r IH]; intros Q; simpl; auto. Qed.
+
+Theorem split_segment_cm_exact thr P1 P2 ev V a b ncg om bs ns j k o :
+  0 <= thr -> (j < length ns)%nat -> (k < length bs)%nat -> (o < length om)%nat ->
+  feq d (fmul d (fadj (toF V)) (toF V)) fid ->
+  all_masked d thr (vg RO om o) ev (a + b) -> all_masked d thr (vg RO om o) ev a -> all_masked d thr (vg RO om o) ev b ->
+  a3get RO (cm_pulse thr (P1 ++ (ev, V, a + b, ncg) :: P2) om bs ns) j k o =
+  a3get RO (cm_pulse thr (P1 ++ (ev, V, a, ncg) :: (ev, V, b, ncg) :: P2) om bs ns) j k o.
+Proof.
+  intros H0 Hj Hk Ho HV M0 M1 M2. rewrite !cm_pulse_entry by auto. rewrite !map_app. cbn [map].
+  change (fs_seg j (ev, V, a + b, ncg)) with ((ev, V, a + b, vg RO ncg j) : seg).
+  change (fs_seg j (ev, V, a, ncg)) with ((ev, V, a, vg RO ncg j) : seg).
+  change (fs_seg j (ev, V, b, ncg)) with ((ev, V, b, vg RO ncg j) : seg).
+  match goal with |- ?x = ?y => assert (E : csub' x y = 0c); [| rewrite <- (cadd_0_l y), <- E; ring] end.
+  rewrite (split_segment_segs_diff d _ _ _ _ _ _ ev V a b _ _ _ HV).
+  rewrite (split_segment_exact d thr ev V _ _ a b _ _ _ _ H0 HV M0 M1 M2). ring.
+Qed.
+
+Theorem split_segment_cm_bound thr P1 P2 ev V a b ncg om bs ns j k o :
+  0 <= thr -> (j < length ns)%nat -> (k < length bs)%nat -> (o < length om)%nat ->
+  feq d (fmul d (fadj (toF V)) (toF V)) fid ->
+  Cmod' (csub' (a3get RO (cm_pulse thr (P1 ++ (ev, V, a + b, ncg) :: P2) om bs ns) j k o)
+               (a3get RO (cm_pulse thr (P1 ++ (ev, V, a, ncg) :: (ev, V, b, ncg) :: P2) om bs ns) j k o))
+  <= Rabs (vg RO ncg j) * taylor_eps thr * (Rabs (a + b) + Rabs a + Rabs b)
+     * step_weight d V (prop_before P1) (nthm ns j) (nthm bs k).
+Proof.
+  intros H0 Hj Hk Ho HV. rewrite !cm_pulse_entry by auto. rewrite !map_app. cbn [map].
+  change (fs_seg j (ev, V, a + b, ncg)) with ((ev, V, a + b, vg RO ncg j) : seg).
+  change (fs_seg j (ev, V, a, ncg)) with ((ev, V, a, vg RO ncg j) : seg).
+  change (fs_seg j (ev, V, b, ncg)) with ((ev, V, b, vg RO ncg j) : seg).
+  rewrite (split_segment_segs_diff d _ _ _ _ _ _ ev V a b _ _ _ HV).
+  unfold prop_before. rewrite <- (fold_next_Q_indep j).
+  apply split_segment_bound; auto.
+Qed.
+
+(* ---- linearity (three rows j, j1, j2 of one pulse) ---- *)
+Theorem cm_linear_operators thr P om bs ns j j1 j2 k o (al be : Cx) :
+  (j < length ns)%nat -> (j1 < length ns)%nat -> (j2 < length ns)%nat -> (k < length bs)%nat -> (o < length om)%nat ->
+  nthm ns j = madd RO d (mscal RO d al (nthm ns j1)) (mscal RO d be (nthm ns j2)) ->
+  (forall p, In p P -> vg RO (fs_nc p) j1 = vg RO (fs_nc p) j /\ vg RO (fs_nc p) j2 = vg RO (fs_nc p) j) ->
+  a3get RO (cm_pulse thr P om bs ns) j k o =
+  cadd' (cmul' al (a3get RO (cm_pulse thr P om bs ns) j1 k o)) (cmul' be (a3get RO (cm_pulse thr P om bs ns) j2 k o)).
+Proof.
+  intros Hj Hj1 Hj2 Hk Ho HN Hs. rewrite !cm_pulse_entry by auto. rewrite HN, entry_segs_linear_N.
+  rewrite (map_ext_in (fs_seg j1) (fs_seg j)), (map_ext_in (fs_seg j2) (fs_seg j)); auto;
+    intros p Hp; unfold fs_seg; destruct (Hs p Hp) as [E1 E2]; rewrite ?E1, ?E2; reflexivity.
+Qed.
+
+Theorem cm_linear_sensitivities thr P om bs ns j j1 j2 k o (a b : R) :
+  (j < length ns)%nat -> (j1 < length ns)%nat -> (j2 < length ns)%nat -> (k < length bs)%nat -> (o < length om)%nat ->
+  nthm ns j1 = nthm ns j -> nthm ns j2 = nthm ns j ->
+  (forall p, In p P -> vg RO (fs_nc p) j = a * vg RO (fs_nc p) j1 + b * vg RO (fs_nc p) j2) ->
+  a3get RO (cm_pulse thr P om bs ns) j k o =
+  cadd' (cscal RO a (a3get RO (cm_pulse thr P om bs ns) j1 k o)) (cscal RO b (a3get RO (cm_pulse thr P om bs ns) j2 k o)).
+Proof.
+  intros Hj Hj1 Hj2 Hk Ho HN1 HN2 Hs. rewrite !cm_pulse_entry by auto. rewrite HN1, HN2.
+  rewrite (map_ext_in (fs_seg j) (fun p => seg_with_sens (fs_seg 0 p) (a * vg RO (fs_nc p) j1 + b * vg RO (fs_nc p) j2))).
+  2:{ intros p Hp. unfold fs_seg, seg_with_sens. rewrite (Hs p Hp). reflexivity. }
+  rewrite (map_ext (fs_seg j1) (fun p => seg_with_sens (fs_seg 0 p) (vg RO (fs_nc p) j1))) by (intros; reflexivity).
+  rewrite (map_ext (fs_seg j2) (fun p => seg_with_sens (fs_seg 0 p) (vg RO (fs_nc p) j2))) by (intros; reflexivity).
+  apply (entry_segs_linear_s d (foi_entry RO thr) (vg RO om o) a b (nthm ns j) (nthm bs k) (fs_seg 0)
+           (fun p => vg RO (fs_nc p) j1) (fun p => vg RO (fs_nc p) j2)).
+Qed.
+End OnModel.
+
+(* =====================================================================================
+   Operator order
+   ===================================================================================== *)
+Section Order.
+Variable d : nat.
+
+Lemma sens_row_reindex G (nc : list (list R)) (p : list nat) j : (j < length p)%nat ->
+  sens_row G (map (nthv nc) p) j = sens_row G nc (nth j p 0%nat).
+Proof.
+  intros H. unfold sens_row. apply build_ext. intros g _. f_equal.
+  unfold nthv at 1. apply (nth_map_in (nthv nc) p j 0%nat []). exact H.
+Qed.
+
+(* re-listing the noise operators (with their sensitivities) re-lists the rows of the control matrix;
+   [p] lists, for each new position, the old position *)
+Theorem cm_reindex_rows thr evs Vs Qs om bs ns nc dts ts (p : list nat) j k o :
+  (j < length p)%nat -> (nth j p 0 < length ns)%nat -> (k < length bs)%nat -> (o < length om)%nat ->
+  a3get RO (control_matrix_from_scratch RO d thr evs Vs Qs om bs (map (nthm ns) p) (map (nthv nc) p) dts ts) j k o =
+  a3get RO (control_matrix_from_scratch RO d thr evs Vs Qs om bs ns nc dts ts) (nth j p 0%nat) k o.
+Proof.
+  intros Hj Hp Hk Ho. rewrite !cm_entry_loop_formula by (auto; rewrite map_length; auto).
+  rewrite sens_row_reindex by auto. f_equal.
+  unfold nthm at 1. apply (nth_map_in (nthm ns) p j 0%nat []). exact Hj.
+Qed.
+(* the same for the basis elements (columns) *)
+Theorem cm_reindex_cols thr evs Vs Qs om bs ns nc dts ts (p : list nat) j k o :
+  (k < length p)%nat -> (nth k p 0 < length bs)%nat -> (j < length ns)%nat -> (o < length om)%nat ->
+  a3get RO (control_matrix_from_scratch RO d thr evs Vs Qs om (map (nthm bs) p) ns nc dts ts) j k o =
+  a3get RO (control_matrix_from_scratch RO d thr evs Vs Qs om bs ns nc dts ts) j (nth k p 0%nat) o.
+Proof.
+  intros Hk Hp Hj Ho. rewrite !cm_entry_loop_formula by (auto; rewrite map_length; auto).
+  f_equal. unfold nthm at 1. apply (nth_map_in (nthm bs) p k 0%nat []). exact Hk.
+Qed.
+
+(* any permutation of the list of (noise operator, sensitivities) pairs permutes the rows *)
+Theorem cm_perm_rows thr evs Vs Qs om bs ns nc ns' nc' dts ts :
+  length ns = length nc -> length ns' = length nc' ->
+  Permutation (combine ns nc) (combine ns' nc') ->
+  exists f : nat -> nat, FinFun.bFun (length ns) f /\ FinFun.bInjective (length ns) f /\
+    forall j k o, (j < length ns)%nat -> (k < length bs)%nat -> (o < length om)%nat ->
+      a3get RO (control_matrix_from_scratch RO d thr evs Vs Qs om bs ns' nc' dts ts) j k o =
+      a3get RO (control_matrix_from_scratch RO d thr evs Vs Qs om bs ns nc dts ts) (f j) k o.
+Proof.
+  intros L L' HP.
+  destruct (proj1 (Permutation_nth (combine ns nc) (combine ns' nc') ([], [])) HP) as [Hlen [f [Hf [Hinj Hnth]]]].
+  rewrite !combine_length, <- L, <- L', !Nat.min_id in *.
+  exists f. split; [exact Hf|]. split; [exact Hinj|].
+  intros j k o Hj Hk Ho. specialize (Hnth j Hj). rewrite !combine_nth in Hnth by auto.
+  injection Hnth as E1 E2.
+  rewrite !cm_entry_loop_formula by (auto; try (rewrite Hlen; auto); apply Hf; auto).
+  replace (nthm ns' j) with (nthm ns (f j)) by (symmetry; exact E1).
+  replace (sens_row (length dts) nc' j) with (sens_row (length dts) nc (f j)); [reflexivity|].
+  unfold sens_row. apply build_ext. intros g _. f_equal. symmetry. exact E2.
+Qed.
+
+(* control operators: the Hamiltonian H_l = sum_i a_il A_i does not depend on the listing order *)
+Lemma csumlist_perm (l l' : list Cx) : Permutation l l' -> csumlist RO l = csumlist RO l'.
+Proof.
+  induction 1; simpl; auto.
+  - rewrite IHPermutation. reflexivity.
+  - ring.
+  - congruence.
+Qed.
+Theorem hamiltonian_perm (opers opers' : list MatR) (coeffs coeffs' : list (list R)) l :
+  Permutation (combine opers coeffs) (combine opers' coeffs') ->
+  hamiltonian RO d opers coeffs l = hamiltonian RO d opers' coeffs' l.
+Proof.
+  intros HP. unfold hamiltonian. apply mbuild_ext. intros j k _ _.
+  apply csumlist_perm. apply Permutation_map. exact HP.
+Qed.
+End Order.
+
+(* =====================================================================================
+   The split on the package's cm_step, and satisfiability of the hypotheses
+   ===================================================================================== *)
+Section SplitOnStep.
+Variable d : nat.
+
+Theorem split_cm_step_exact thr ev V Q tg a b om bs ns nc j k o :
+  0 <= thr -> (j < length ns)%nat -> (k < length bs)%nat -> (o < length om)%nat ->
+  feq d (fmul d (fadj (toF V)) (toF V)) fid ->
+  all_masked d thr (vg RO om o) ev (a + b) -> all_masked d thr (vg RO om o) ev a -> all_masked d thr (vg RO om o) ev b ->
+  a3get RO (cm_step RO d thr ev V Q tg (a + b) om bs ns nc) j k o =
+  cadd' (a3get RO (cm_step RO d thr ev V Q tg a om bs ns nc) j k o)
+        (a3get RO (cm_step RO d thr ev V (mmul RO d (segment_propagator RO d ev V a) Q) (tg + a) b om bs ns nc) j k o).
+Proof. intros. rewrite !cm_step_entry by auto. apply split_segment_exact; auto. Qed.
+
+Theorem split_cm_step_bound thr ev V Q tg a b om bs ns nc j k o :
+  0 <= thr -> (j < length ns)%nat -> (k < length bs)%nat -> (o < length om)%nat ->
+  feq d (fmul d (fadj (toF V)) (toF V)) fid ->
+  Cmod' (csub' (a3get RO (cm_step RO d thr ev V Q tg (a + b) om bs ns nc) j k o)
+               (cadd' (a3get RO (cm_step RO d thr ev V Q tg a om bs ns nc) j k o)
+                      (a3get RO (cm_step RO d thr ev V (mmul RO d (segment_propagator RO d ev V a) Q) (tg + a) b om bs ns nc) j k o)))
+  <= Rabs (vg RO nc j) * taylor_eps thr * (Rabs (a + b) + Rabs a + Rabs b) * step_weight d V Q (nthm ns j) (nthm bs k).
+Proof. intros. rewrite !cm_step_entry by auto. apply split_segment_bound; auto. Qed.
+End SplitOnStep.
+
+(* a non-trivial unitary: the swap of two levels *)
+Definition swap2 : MatR := [[0c; 1c]; [1c; 0c]].
+Example swap2_unitary : funitary 2 (toF swap2).
+Proof.
+  split; intros i j Hi Hj;
+    (destruct i as [|[|i]]; [| |lia]); (destruct j as [|[|j]]; [| |lia]);
+    unfold fmul, fadj, fid, toF, swap2, mget; simpl; apply c_eq; csimp; ring.
+Qed.
+Example all_masked_example2 : all_masked 2 (/ 10000000) (/ 2) [0; 1] (1 + 1).
+Proof.
+  intros m n Hm Hn. unfold foi_x.
+  destruct m as [|[|m]]; [| |lia]; (destruct n as [|[|n]]; [| |lia]); unfold vg, vget; simpl;
+    unfold Rabs; match goal with |- context [Rcase_abs ?x] => destruct (Rcase_abs x) end; lra.
 Qed.
